@@ -23,7 +23,7 @@ RULE = (
     "subject (every transform, distribution, flow) x config (<=1 deviation; thorough <=2) x pattern {init, pat1} x mode {eval, train} x "
     "argument kind {fresh, non-contiguous view, slice of a larger tensor, requires_grad leaf, non-leaf with grad history} (applied to "
     "inputs and context) x ALL call histories of length <=2 (thorough <=3) over {forward(x1), forward(x2), inverse(y1)} resp. "
-    "{log_prob(x1), log_prob(x2), sample(2), sample_and_log_prob(1), transform_to_noise(x1)}, each alphabet plus the first call with "
+    "{log_prob(x1), log_prob(x2), sample(2), sample_and_log_prob(1), transform_to_noise(x1)}, for elementwise transforms also forward on items twice as large, each alphabet plus the first call with "
     "arguments in the other floating dtype (may raise; must not change state). In eval mode every result is also compared bitwise with the "
     "same call made as the only call on a freshly built object (order independence). Non-trivial = history of length >=2 "
     "or a non-fresh argument kind."
@@ -37,6 +37,7 @@ ASSUMPTIONS = [
 ]
 
 T_OPS = ("fwd1", "fwd2", "inv1", "fwd32")
+T_OPS_WIDE = T_OPS + ("fwdW",)  # elementwise transforms accept any per-item shape: one more call on items twice as large
 D_OPS = ("lp1", "lp2", "sample", "salp", "t2n", "lp32")
 KINDS = ("fresh", "noncontig", "slice", "leaf", "nonleaf")
 
@@ -225,7 +226,9 @@ def run_transform_case(sname, cfg, pname, seed, tier, res=None, only=None):
         if res is not None:
             bump(res["skipped"], "cannot-construct/forward (other properties): %s" % type(e).__name__)
         return vio
-    jobs = [(only["train"], only["kind"], tuple(only["hist"]))] if only else [(tr, k, h) for tr in (False, True) for k in KINDS for h in histories(T_OPS, depth)]
+    wide = s.kind == "elementwise" and "shape" in s.axes and cs is None
+    xw = torch.cat([x1, 0.5 * x1], dim=1) if wide else None
+    jobs = [(only["train"], only["kind"], tuple(only["hist"]))] if only else [(tr, k, h) for tr in (False, True) for k in KINDS for h in histories(T_OPS_WIDE if wide else T_OPS, depth)]
     if only and not only["train"]:
         jobs = [(False, only["kind"], (op,)) for op in dict.fromkeys(only["hist"])] + jobs
     refs = {}
@@ -240,6 +243,8 @@ def run_transform_case(sname, cfg, pname, seed, tier, res=None, only=None):
         table = {"fwd1": (mk(m.forward), [x1] + ([c1] if cs is not None else [])), "fwd2": (mk(m.forward), [x2] + ([c2] if cs is not None else [])),
                  "inv1": (mk(m.inverse), [y1] + ([c1] if cs is not None else [])),
                  "fwd32": (mk(m.forward), [_other(x1)] + ([_other(c1)] if cs is not None else []))}
+        if wide:
+            table["fwdW"] = (mk(m.forward), [xw])
         vs = explore(m, table, hist, kind, train, is_eval_repeatable=True, refs=None if train else refs)
         if res is not None:
             res["evaluations"] += 1
